@@ -125,6 +125,7 @@ def gen_program(rng, name, forced_widths):
                 s.muxed, s.muxval, s.is_mux = False, 0, False
                 s.float = fkind == "float" and fl == 32
                 s.signed = fkind == "signed" and not s.float
+                s.force_default = rng.choice([-5, -1000, -3221225472]) if s.float else None
                 used_plain.update(pos)
                 m.signals.append(s)
         has_mux = nbits >= 16 and rng.random() < 0.45
@@ -217,9 +218,13 @@ def gen_program(rng, name, forced_widths):
                 s.vds = [(v, rng.choice(["Val%s%d", "Val %s %d", "V\u00e4l%s%d", "val-%s_%d"]) % (chr(65 + i), abs(v) % 1000))
                          for i, v in enumerate(vals)]
                 rng.shuffle(s.vds)
-            if rng.random() < 0.3:
+            if getattr(s, "force_default", None) is not None:
+                s.default = s.force_default
+            elif rng.random() < (0.8 if s.float else 0.3):
                 if s.float:
-                    s.default = rng.choice([0, 1, 5])
+                    # exactly representable in binary32; negative and large values exercise the order in which
+                    # the compiler sees GenSigStartValue (BA_) and the float type (SIG_VALTYPE_)
+                    s.default = rng.choice([0, 1, 5, -5, -1000, 16777216, 3221225472, -3221225472])
                 elif s.length == 1:
                     s.default = rng.choice([0, 1])
                 else:
